@@ -760,6 +760,18 @@ pub fn run_and_judge(plan: &ExPlan, want_trace: bool) -> RunOut {
             }
         }
         None => {
+            // a refused packet is still one packet: the transport must have consumed exactly it
+            // (its body left in the stream would be read as the next packet's header)
+            if matches!(pred.error, Some("negative_ack") | Some("foreign_control_field") | Some("undecodable_body")) && cursor < pred.read_limit {
+                out.fail(
+                    "under_read",
+                    format!("{sigbase}/{}", pred.error.unwrap_or("")),
+                    format!(
+                        "the refused packet ends at offset {}, but the client consumed only {cursor} bytes: the rest would be taken for the next packet",
+                        pred.read_limit
+                    ),
+                );
+            }
             if cursor > pred.read_limit {
                 out.fail(
                     "over_read",
